@@ -86,12 +86,12 @@ class BuildFailed(Exception):
     pass
 
 
-def extract(config, repo=None):
+def extract(config, repo=None, scratch=False):
     """Fact file for `config` of the *current* working tree of repo (cached by content hash)."""
     repo = repo or repo_dir()
     build_driver()
     th = tree_hash(repo)
-    facts_dir = os.path.join(CACHE, "facts")
+    facts_dir = os.path.join(CACHE, "facts-scratch" if scratch else "facts")
     os.makedirs(facts_dir, exist_ok=True)
     out = os.path.join(facts_dir, "%s-%s.json" % (config, th))
     if os.path.exists(out):
@@ -127,7 +127,7 @@ def extract(config, repo=None):
         # keep the cache small: remove fact files of other trees for this config (keep newest 6)
         olds = sorted((f for f in os.listdir(facts_dir) if f.startswith(config + "-") and f.endswith(".json")),
                       key=lambda f: os.path.getmtime(os.path.join(facts_dir, f)))
-        for f in olds[:-6]:
+        for f in olds[:-(2 if scratch else 6)]:
             try:
                 os.unlink(os.path.join(facts_dir, f))
             except OSError:
@@ -163,9 +163,10 @@ class Ob:
 
 
 class Ctx:
-    def __init__(self, prop, tier, repo=None):
+    def __init__(self, prop, tier, repo=None, scratch=False):
         self.prop = prop
         self.tier = tier
+        self.scratch = scratch
         self.repo = repo or repo_dir()
         self._facts = {}
         self.obs = []
@@ -178,7 +179,7 @@ class Ctx:
 
     def facts(self, config="default"):
         if config not in self._facts:
-            path, hit = extract(config, self.repo)
+            path, hit = extract(config, self.repo, self.scratch)
             self.cache_hits[config] = hit
             data = mir.load(path)
             stolen = [s for s in data.get("stolen", []) if s.startswith(("Fn:", "AssocFn:", "Closure:"))]
@@ -249,43 +250,48 @@ def load_known(path=None):
     return findings, fixed
 
 
+def evaluate(prop, tier="quick", repo=None, scratch=False, only_rule=None):
+    """Run the rules of a property on a tree; returns the Ctx (obligations inside). Raises BuildFailed."""
+    mod = importlib.import_module(prop.lower())
+    ctx = Ctx(prop, tier, repo, scratch)
+    for rid, fn, configs in mod.RULES:
+        if only_rule and rid != only_rule:
+            continue
+        cfgs = configs.get(tier, configs.get("quick", ["default"])) if isinstance(configs, dict) else configs
+        for cfg in cfgs:
+            ctx.cur_rule = rid
+            before = len(ctx.obs)
+            try:
+                facts = ctx.facts(cfg)
+                fn(ctx, facts)
+            except BuildFailed:
+                raise
+            except KeyError as e:
+                ctx.missing("anchor", "anchor lookup failed: %s" % (e,))
+            except Exception as e:  # rule crashed: fail closed
+                tb = traceback.format_exc(limit=6)
+                ctx.undecided("rule-crash", "rule raised %s: %s\n%s" % (type(e).__name__, e, tb))
+            if len(ctx.obs) == before:
+                ctx.missing("vacuous", "rule produced no obligation in config %s" % cfg)
+    return ctx
+
+
 def run_property(prop, tier="quick", replay=None, quiet=False):
     t0 = time.time()
     seed = int(os.environ.get("VERIF_SEED", "0") or 0)
     modname = prop.lower()
-    ctx = Ctx(prop, tier)
     try:
         mod = importlib.import_module(modname)
     except ImportError as e:
         print("no rule module for %s: %s" % (prop, e))
         return 2
     meta = mod.META
-    rules = mod.RULES
     try:
-        for rid, fn, configs in rules:
-            if replay and replay.get("rule") and replay["rule"] != rid:
-                continue
-            cfgs = configs.get(tier, configs.get("quick", ["default"])) if isinstance(configs, dict) else configs
-            for cfg in cfgs:
-                ctx.cur_rule = rid
-                before = len(ctx.obs)
-                try:
-                    facts = ctx.facts(cfg)
-                    fn(ctx, facts)
-                except BuildFailed:
-                    raise
-                except KeyError as e:
-                    ctx.missing("anchor", "anchor lookup failed: %s" % (e,))
-                except Exception as e:  # rule crashed: fail closed
-                    tb = traceback.format_exc(limit=6)
-                    ctx.undecided("rule-crash", "rule raised %s: %s\n%s" % (type(e).__name__, e, tb))
-                if len(ctx.obs) == before:
-                    ctx.missing("vacuous", "rule produced no obligation in config %s" % cfg)
+        ctx = evaluate(prop, tier, only_rule=(replay or {}).get("rule"))
     except BuildFailed as e:
         sys.stderr.write(str(e) + "\n")
         print("BUILD-FAILED property=%s (nothing can be said about a tree that does not compile)" % prop)
         return 2
-
     findings, _fixed = load_known()
     bad = [o for o in ctx.obs if o.status != "discharged"]
     known, new = [], []
@@ -302,11 +308,17 @@ def run_property(prop, tier="quick", replay=None, quiet=False):
 
     # ---- thorough extras
     extra = {}
-    if tier == "thorough" and hasattr(mod, "thorough"):
+    if tier == "thorough":
+        import selftest
         try:
-            extra = mod.thorough(ctx) or {}
+            extra = {"selftest": selftest.run(prop)}
         except Exception as e:
-            extra = {"thorough_error": "%s: %s" % (type(e).__name__, e)}
+            extra = {"selftest": {"error": "%s: %s" % (type(e).__name__, e)}}
+        if hasattr(mod, "thorough"):
+            try:
+                extra.update(mod.thorough(ctx) or {})
+            except Exception as e:
+                extra["thorough_error"] = "%s: %s" % (type(e).__name__, e)
 
     # ---- evidence
     obs_dicts = [o.as_dict() for o in ctx.obs]
@@ -375,6 +387,9 @@ def run_property(prop, tier="quick", replay=None, quiet=False):
 
 
 def main(argv):
+    if argv and argv[0] == "selftest":
+        import selftest
+        return selftest.main(argv[1:])
     import argparse
     ap = argparse.ArgumentParser()
     ap.add_argument("prop")
@@ -392,6 +407,9 @@ def main(argv):
             extract(cfg)
         print("setup ok")
         return 0
+    if a.prop == "selftest":
+        import selftest
+        return selftest.main(sys.argv[2:])
     if a.prop == "all":
         rc = 0
         for p in PROPS:
